@@ -104,6 +104,7 @@ def run(spec):
     cpost = tbrref.Posterior(CX[pre], CY[pre], CX[test_only], CY[test_only])
     if cpost.degenerate or fs['n_pre'] < 10 or not cpost.sigma2 > 0 or abs(cpost.loc[-1]) < 20 * cpost.scale[-1]:
       return {'viol': [], 'nt': False, 'cls': ['degenerate-incremental-cost'], 'dc': 1}
+  df_before = df.copy(deep=True)
   try:
     if spec.get('refit'):
       # 'refit' flavour: the model object has already analysed a frame of the other cost scenario
@@ -120,6 +121,21 @@ def run(spec):
     else:
       m = fit_model(df, kwargs, spec['use_cooldown'])
     rep = _summ(m, spec)
+    if not df.equals(df_before):
+      viol.append(('C07:input-frame-modified', det))
+    if spec['random_state'] % 4 == 0 and spec['use_cooldown']:
+      # documented defaults: TBRiROAS() uses the cooldown; summary(level=0.9, posterior_threshold=0.0, tails=1, nsims=10000)
+      from matched_markets.methodology import tbr_iroas
+      m_d = tbr_iroas.TBRiROAS()
+      m_d.fit(*frames.materialise(fs)[:1], **kwargs)
+      r_d = m_d.summary(random_state=spec['random_state'])
+      r_e = m.summary(level=0.9, posterior_threshold=0.0, tails=1, nsims=10000, random_state=spec['random_state'])
+      for col in r_e.columns:
+        a, b = r_d[col].values[-1], r_e[col].values[-1]
+        if not ((a == b) or (isinstance(a, float) and a != a and b != b)):
+          viol.append(('C07:summary-defaults', dict(det, column=col, default=util.summarize(a), explicit=util.summarize(b))))
+          break
+      cls.append('defaults-checked')
     if len(rep) != 1:
       viol.append(('C07:report-rows', dict(det, rows=len(rep))))
     label = str(rep['scenario'].values[-1])
